@@ -143,6 +143,7 @@ package revocation
 //@   ensures window: len(update.Events) > 0 ==> val(result) == old(eprod(update.Events, from - update.Events[0].Index, len(update.Events)))
 //@   ensures empty: len(update.Events) == 0 ==> val(result) == 1
 //@   ensures memo: result != nil && update.product == result && (len(update.Events) > 0 ==> update.productFrom == from && prodinv(update))
+//@   ensures recomputed: old(update.product) == nil || old(update.productFrom) != from ==> fresh(result)
 //@   modifies update.product, update.productFrom
 //@   loop 0 invariant 0 <= $i && update.product != nil && fresh(update.product) && val(update.product) == old(eprod(update.Events, from - update.Events[0].Index, from - update.Events[0].Index + $i))
 //@   mustfail canary: val(result) == 1
@@ -176,4 +177,21 @@ package revocation
 //@   ensures verified: err == nil && (w.U != old(w.U) || w.SignedAccumulator != old(w.SignedAccumulator)) ==> update.SignedAccumulator.Accumulator != nil && chained(update.Events, update.SignedAccumulator.Accumulator)
 //@   ensures notrevoked: err == nil && w.U != old(w.U) && len(update.Events) > 0 ==> gcd(val(w.E), old(eprod(update.Events, w.SignedAccumulator.Accumulator.Index + 1 - update.Events[0].Index, len(update.Events)))) == 1
 //@   modifies w.U, w.SignedAccumulator, heap("Witness.Updated"), fields(w.SignedAccumulator), update.SignedAccumulator.Accumulator, update.product, update.productFrom
+//@   mustfail canary: err != nil
+
+//@ func NewEventList
+//@   property C10
+//@   inline
+
+//@ func (*Update).Prepend
+//@   property C10 C09
+//@   safety
+//@   requires update != nil && eventlist != nil && evnonnil(update.Events) && evnonnil(eventlist.Events) && prodinv(update)
+//@   requires eventlist.product != nil
+//@   ensures accept: err == nil && len(eventlist.Events) > 0 ==> update.SignedAccumulator != nil && update.SignedAccumulator.Accumulator != nil && chained(update.Events, update.SignedAccumulator.Accumulator)
+//@   ensures merged: err == nil && len(eventlist.Events) > 0 ==> len(update.Events) >= len(eventlist.Events) && forall i in 0..len(eventlist.Events) :: update.Events[i] == eventlist.Events[i]
+//@   ensures sameacc: update.SignedAccumulator == old(update.SignedAccumulator)
+//@   ensures atomic: err != nil || len(eventlist.Events) == 0 ==> update.Events == old(update.Events) && update.product == old(update.product) && update.productFrom == old(update.productFrom) && val(update.product) == old(val(update.product))
+//@   ensures listkept: len(eventlist.Events) == old(len(eventlist.Events)) && forall i in 0..len(eventlist.Events) :: eventlist.Events[i] == old(eventlist.Events[i])
+//@   modifies update.Events, update.product, update.productFrom, update.SignedAccumulator, elems(eventlist.Events)
 //@   mustfail canary: err != nil
